@@ -530,6 +530,41 @@ def CHECK_C (c : Int) : Outcome := assertTrue (conv 32 c != 0)
 
 def FAIL_C : Outcome := fail
 
+/-! ## the boolean macros on a compound condition
+
+`CHECK(a || b)`, `CHECK_FALSE(a == b)`, `CHECK_C(a ? b : 0)` …: the macro argument is an expression whose top-level
+operator binds weaker than unary `!` and than a cast.  `CHECK_TRUE_LOCATION` hands `(condition)` and
+`CHECK_FALSE_LOCATION` hands `!(condition)` to `assertTrue`: the argument is parenthesised, so the check sees the
+value of the WHOLE expression.  `CHECK_C` passes the expression as a function argument.  Operands are two `int`s. -/
+inductive CondOp where
+  | or | and | eq | ne | lt | cond
+deriving Repr, DecidableEq, Inhabited
+
+/-- the `int` value of the C++ expression `a || b`, `a && b`, `a == b`, `a != b`, `a < b`, `a ? b : 0` -/
+def CondOp.value : CondOp → Int → Int → Int
+  | .or, a, b => if (a != 0 || b != 0) then 1 else 0
+  | .and, a, b => if (a != 0 && b != 0) then 1 else 0
+  | .eq, a, b => if RelOp.holds .eq a b then 1 else 0
+  | .ne, a, b => if RelOp.holds .ne a b then 1 else 0
+  | .lt, a, b => if RelOp.holds .lt a b then 1 else 0
+  | .cond, a, b => if a != 0 then b else 0
+
+/-- the expression converted to `bool` -/
+def CondOp.truth (op : CondOp) (a b : Int) : Bool := op.value a b != 0
+
+def condOp? : String → Option CondOp
+  | "or" => some .or | "and" => some .and | "eq" => some .eq | "ne" => some .ne | "lt" => some .lt
+  | "cond" => some .cond | _ => none
+
+/-- one boolean check macro (base name, the `_TEXT` form expands alike) on the compound condition `op a b` -/
+def boolxMacro (m : String) (op : CondOp) (a b : Int) : Option Outcome :=
+  match m with
+  | "CHECK" => some (CHECK (op.truth a b))
+  | "CHECK_TRUE" => some (CHECK (op.truth a b))
+  | "CHECK_FALSE" => some (CHECK_FALSE (op.truth a b))
+  | "CHECK_C" => some (CHECK_C (op.value a b))
+  | _ => none
+
 /-! ## the tables the model above was written against
 
 Reviewed copies of what `translate/extract_asserts.py` reads from the source (white space is
